@@ -25,7 +25,7 @@ def gen_definition(rng, rich=True, styles=None, nested_criteria=False):
         name = f"{prefix}_F{fld[0]}"
         t = {'name': name + '_T', 'kind': kind}
         if kind in ('int', 'sint', 'cal'):
-            t.update(w=rng.choice([8, 8, 16, 4, 12, 32]), enc='unsigned' if kind != 'sint' else rng.choice(['signed', 'twosComplement']),
+            t.update(w=rng.choice([8, 8, 16, 4, 12, 32]), enc='unsigned' if kind != 'sint' else rng.choice(['signed', 'twosComplement', 'twosCompliment']),
                      order='mostSignificantByteFirst')
             if kind == 'cal':
                 if rng.random() < 0.6:
